@@ -516,17 +516,19 @@ Lemma hops_sem st hs : forall x i input t,
   sem_ops st input = Ok t -> good t x i -> wfc t ->
   Forall (fun h => h_len h = HOne) hs -> hops_fresh (cols t) hs = true ->
   exists t' x' i', sem_ops st (hops_plan x hs input) = Ok t' /\ good t' x' i' /\ wfc t' /\
+                   cols t' = cols t ++ flat_map (fun h => [edge_col (h_evar h); np_var (h_to h)]) hs /\
                    map (abs t' i') (rows t') = obind_hops st hs (map (abs t i) (rows t)).
 Proof.
   induction hs as [|h hs IH]; intros x i input t Hs Hg Hw Hl Hf.
-  - exists t, x, i. split; [exact Hs|split; [exact Hg|split; [exact Hw|reflexivity]]].
+  - exists t, x, i. split; [exact Hs|split; [exact Hg|split; [exact Hw|split; [cbn; rewrite app_nil_r; reflexivity|reflexivity]]]].
   - inversion Hl as [|? ? Hl1 Hl2]; subst.
     destruct (hops_fresh_cons _ _ _ Hf) as [Hf1 Hf2].
     destruct (hop_sem st h x i input t Hs Hg Hw Hl1 Hf1) as (t1 & Hs1 & Hc1 & Hg1 & Hw1 & Ha1).
     rewrite <- Hc1 in Hf2.
     destruct (IH (np_var (h_to h)) (S (List.length (cols t))) (hop_plan x h input) t1 Hs1 Hg1 Hw1 Hl2 Hf2)
-      as (t' & x' & i' & Hs' & Hg' & Hw' & Ha').
+      as (t' & x' & i' & Hs' & Hg' & Hw' & Hc' & Ha').
     exists t', x', i'. split; [exact Hs'|]. split; [exact Hg'|]. split; [exact Hw'|].
+    split; [rewrite Hc', Hc1; cbn [flat_map]; rewrite <- app_assoc; reflexivity|].
     cbn [obind_hops]. rewrite <- Ha1. exact Ha'.
 Qed.
 
@@ -539,7 +541,9 @@ Qed.
 (** the operators enumerate the operational bindings, in order — no exclusion of any defect class *)
 Lemma chain_obindings_wfc st p :
   single_hops p = true -> pat_fresh p = true ->
-  exists t, sem_ops st (chain_plan p) = Ok t /\ wfc t /\ tbl_envs t = obindings st p.
+  exists t, sem_ops st (chain_plan p) = Ok t /\ wfc t /\
+            cols t = np_var (p_start p) :: flat_map (fun h => [edge_col (h_evar h); np_var (h_to h)]) (p_hops p) /\
+            tbl_envs t = obindings st p.
 Proof.
   intros H1 Hf. unfold pat_fresh in Hf. apply andb_true_iff in Hf. destruct Hf as [Hx Hf].
   apply negb_true_iff in Hx.
@@ -556,8 +560,8 @@ Proof.
     - intros r Hr. cbn [rows t0 mkT] in Hr. unfold scan_rows in Hr. apply in_map_iff in Hr.
       destruct Hr as (n & <- & _). split; [reflexivity|]. repeat constructor. }
   destruct (hops_sem st (p_hops p) x 0%nat (LScan x label) t0 eq_refl Hg0 Hw0 (single_hops_forall p H1) Hf)
-    as (t' & x' & i' & Hs' & Hg' & Hw' & Ha').
-  exists t'. split; [exact Hs'|]. split; [exact Hw'|].
+    as (t' & x' & i' & Hs' & Hg' & Hw' & Hc' & Ha').
+  exists t'. split; [exact Hs'|]. split; [exact Hw'|]. split; [exact Hc'|].
   unfold tbl_envs, obindings.
   transitivity (map fst (map (abs t' i') (rows t'))); [rewrite map_map; reflexivity|].
   rewrite Ha'. f_equal. f_equal.
@@ -572,7 +576,7 @@ Theorem chain_obindings st p :
   single_hops p = true -> pat_fresh p = true ->
   exists t, sem_ops st (chain_plan p) = Ok t /\ tbl_envs t = obindings st p.
 Proof.
-  intros H1 Hf. destruct (chain_obindings_wfc st p H1 Hf) as (t & Hs & _ & He). exists t. split; assumption.
+  intros H1 Hf. destruct (chain_obindings_wfc st p H1 Hf) as (t & Hs & _ & _ & He). exists t. split; assumption.
 Qed.
 
 Theorem chain_bindings_directed_l st p :
@@ -692,3 +696,482 @@ Lemma filter_stack_l : forall t p1 p2,
   rows (filter_tbl p2 (filter_tbl p1 t)) = filter (fun r => p1 r && p2 r) (rows t).
 Proof. intros t p1 p2. cbn [filter_tbl rows mkT cols]. apply filter_filter. Qed.
 Local Close Scope string_scope.
+
+(** * Expressions over a chain row read what the declarative semantics reads *)
+Definition ent_of (c : cell) : ent := match c with CNode i => ENode i | CEdge i => EEdge i | CVal _ => ENode 0 end.
+Lemma cell_ent_of c : is_ent c -> cell_ent c = Some (ent_of c).
+Proof. destruct c; cbn; intros H; [reflexivity|reflexivity|destruct H]. Qed.
+
+Section EvalAgree.
+  Context {E1 E2 : Type}.
+  Variables (look1 : string -> option E1) (val1 : E1 -> val) (prop1 : E1 -> string -> option val) (lab1 : E1 -> option (list string)).
+  Variables (look2 : string -> option E2) (val2 : E2 -> val) (prop2 : E2 -> string -> option val) (lab2 : E2 -> option (list string)).
+  Definition ent_rel (o1 : option E1) (o2 : option E2) : Prop :=
+    match o1, o2 with
+    | Some a, Some b => val1 a = val2 b /\ (forall k, prop1 a k = prop2 b k) /\ lab1 a = lab2 b
+    | None, None => True
+    | _, _ => False
+    end.
+  Lemma eval_agree e :
+    (forall x, List.In x (expr_vars e) -> ent_rel (look1 x) (look2 x)) ->
+    eval look1 val1 prop1 lab1 e = eval look2 val2 prop2 lab2 e.
+  Proof.
+    induction e as [v|x|x k|op a IHa b IHb|a IHa b IHb|a IHa b IHb|a IHa|a IHa|a IHa|x l|l x]; intros H; cbn [eval expr_vars] in *.
+    - reflexivity.
+    - specialize (H x (or_introl eq_refl)). unfold ent_rel in H.
+      destruct (look1 x), (look2 x); cbn [obind]; try contradiction; [destruct H as (-> & _); reflexivity|reflexivity].
+    - specialize (H x (or_introl eq_refl)). unfold ent_rel in H.
+      destruct (look1 x), (look2 x); cbn [obind]; try contradiction; [destruct H as (_ & H & _); apply H|reflexivity].
+    - rewrite IHa, IHb; [reflexivity| |]; intros y Hy; apply H; apply in_or_app; auto.
+    - rewrite IHa, IHb; [reflexivity| |]; intros y Hy; apply H; apply in_or_app; auto.
+    - rewrite IHa, IHb; [reflexivity| |]; intros y Hy; apply H; apply in_or_app; auto.
+    - rewrite IHa; [reflexivity|exact H].
+    - rewrite IHa; [reflexivity|exact H].
+    - rewrite IHa; [reflexivity|exact H].
+    - specialize (H x (or_introl eq_refl)). unfold ent_rel in H.
+      destruct (look1 x), (look2 x); cbn [obind]; try contradiction; [destruct H as (_ & _ & ->); reflexivity|reflexivity].
+    - specialize (H x (or_introl eq_refl)). unfold ent_rel in H.
+      destruct (look1 x), (look2 x); cbn [obind]; try contradiction; [destruct H as (_ & _ & ->); reflexivity|reflexivity].
+  Qed.
+End EvalAgree.
+
+Lemma pos_last_none x cs : ~ List.In x cs -> pos_last x cs = None.
+Proof.
+  induction cs as [|c cs IH]; intros H; [reflexivity|]. cbn [pos_last].
+  rewrite IH by (intro Hi; apply H; right; exact Hi).
+  destruct (String.eqb x c) eqn:E; [|reflexivity]. apply String.eqb_eq in E. exfalso. apply H. left. symmetry. exact E.
+Qed.
+Lemma nonanon_true x : String.eqb x anon = false -> nonanon x = true.
+Proof. intros H. unfold nonanon. rewrite H. reflexivity. Qed.
+
+(** the cell a variable names in a chain row, and the entity the row's binding gives it *)
+Lemma look_agree x : String.eqb x anon = false -> forall cs r,
+  List.length cs = List.length r -> Forall is_ent r -> NoDup (filter nonanon cs) ->
+  option_map ent_of (row_look cs r x) = lookup x (row_env cs r).
+Proof.
+  intros Hx. induction cs as [|c cs IH]; intros [|cl r] Hl He Hn; try discriminate Hl; [reflexivity|].
+  inversion He as [|? ? He1 He2]; subst. cbn in Hl.
+  assert (Hn' : NoDup (filter nonanon cs)).
+  { cbn [filter] in Hn. destruct (nonanon c); [inversion Hn; assumption|exact Hn]. }
+  specialize (IH r (eq_add_S _ _ Hl) He2 Hn').
+  unfold row_look in *. cbn [pos_last]. unfold row_env in *. cbn [combine flat_map fst snd].
+  destruct (pos_last x cs) as [i|] eqn:Ep.
+  - (* x occurs later: then c <> x *)
+    cbn [obind nth_error]. cbn [obind] in IH.
+    assert (Hcx : String.eqb x c = false).
+    { destruct (String.eqb x c) eqn:E; [|reflexivity]. apply String.eqb_eq in E. subst c.
+      cbn [filter] in Hn. rewrite (nonanon_true x Hx) in Hn. inversion Hn as [|? ? Hni _]; subst.
+      exfalso. apply Hni. apply filter_In. split; [|apply nonanon_true; exact Hx].
+      clear -Ep. revert i Ep. induction cs as [|d cs IHc]; intros i Ep; [discriminate Ep|].
+      cbn [pos_last] in Ep. destruct (pos_last x cs) as [j|] eqn:Ej; [right; eapply IHc; reflexivity|].
+      destruct (String.eqb x d) eqn:Ed; [|discriminate Ep]. left. apply String.eqb_eq in Ed. symmetry. exact Ed. }
+    destruct (String.eqb c anon); cbn [app].
+    + exact IH.
+    + rewrite (cell_ent_of cl He1). cbn [app lookup]. rewrite Hcx. exact IH.
+  - cbn [obind] in IH. destruct (String.eqb x c) eqn:E.
+    + apply String.eqb_eq in E. subst c. cbn [obind nth_error option_map]. rewrite Hx.
+      rewrite (cell_ent_of cl He1). cbn [app lookup]. rewrite String.eqb_refl. reflexivity.
+    + cbn [obind option_map]. destruct (String.eqb c anon); cbn [app]; [exact IH|].
+      rewrite (cell_ent_of cl He1). cbn [app lookup]. rewrite E. exact IH.
+Qed.
+
+Lemma fprop_ent st c k : is_ent c -> fprop st c k = ent_prop st (ent_of c) k.
+Proof.
+  destruct c as [i|i|v]; intros H; [| |destruct H]; unfold fprop; cbn [cell_node_id cell_edge_id ent_of ent_prop obind].
+  - destruct (get_node st i); reflexivity.
+  - destruct (get_edge st i); reflexivity.
+Qed.
+Lemma cell_labels_ent st c : is_ent c -> cell_labels st c = ent_labels st (ent_of c).
+Proof. destruct c as [i|i|v]; intros H; [| |destruct H]; reflexivity. Qed.
+Lemma cell_val_ent c : is_ent c -> cell_val c = ent_val (ent_of c).
+Proof. destruct c as [i|i|v]; intros H; [| |destruct H]; reflexivity. Qed.
+
+Lemma row_look_ent cs r x c : Forall is_ent r -> row_look cs r x = Some c -> is_ent c.
+Proof.
+  intros He H. unfold row_look in H. destruct (pos_last x cs) as [i|]; [|discriminate H]. cbn [obind] in H.
+  apply nth_error_In in H. rewrite Forall_forall in He. apply He. exact H.
+Qed.
+Lemma eval_row_env st cs r e :
+  List.length cs = List.length r -> Forall is_ent r -> NoDup (filter nonanon cs) ->
+  (forall x, List.In x (expr_vars e) -> String.eqb x anon = false) ->
+  eval_row st cs r e = eval_env st (row_env cs r) e.
+Proof.
+  intros Hl He Hn Hv. unfold eval_row, eval_env. apply eval_agree. intros x Hx.
+  pose proof (look_agree x (Hv x Hx) cs r Hl He Hn) as Hla. unfold ent_rel.
+  destruct (row_look cs r x) as [c|] eqn:Er; cbn [option_map] in Hla; rewrite <- Hla; [|exact I].
+  pose proof (row_look_ent cs r x c He Er) as Hc.
+  split; [apply cell_val_ent; exact Hc|]. split; [intros k; apply fprop_ent; exact Hc|apply cell_labels_ent; exact Hc].
+Qed.
+
+(** WHERE *)
+Lemma where_sem st w t :
+  wfc t -> (forall x, List.In x (expr_vars w) -> String.eqb x anon = false) ->
+  let t' := filter_tbl (fun r => passes_row st (cols t) r w) t in
+  wfc t' /\ tbl_envs t' = spec_where st (Some w) (tbl_envs t).
+Proof.
+  intros Hw Hv t'. split; [apply filter_wfc; exact Hw|].
+  unfold tbl_envs, spec_where. cbn [t' filter_tbl rows cols mkT]. rewrite filter_map_comm. f_equal.
+  apply filter_ext_in'. intros r Hr. destruct Hw as [Hn Hrows]. destruct (Hrows r Hr) as [Hl He].
+  unfold passes_row, passes_env, passes.
+  change (eval (row_look (cols t) r) cell_val (fprop st) (cell_labels st) w) with (eval_row st (cols t) r w).
+  change (eval (fun x => lookup x (row_env (cols t) r)) ent_val (ent_prop st) (ent_labels st) w) with (eval_env st (row_env (cols t) r) w).
+  rewrite (eval_row_env st (cols t) r w Hl He Hn Hv). reflexivity.
+Qed.
+
+(** * RETURN of core items *)
+Lemma mapM_map {A B} (f : A -> res B) (g : A -> B) (l : list A) :
+  (forall a, List.In a l -> f a = Ok (g a)) -> mapM f l = Ok (map g l).
+Proof.
+  induction l as [|a l IH]; intros H; [reflexivity|]. cbn [mapM map].
+  rewrite (H a (or_introl eq_refl)). cbn [rbind]. rewrite IH by (intros b Hb; apply H; right; exact Hb). reflexivity.
+Qed.
+Lemma pos_last_some x cs : List.In x cs -> exists i, pos_last x cs = Some i /\ (i < List.length cs)%nat.
+Proof.
+  induction cs as [|c cs IH]; intros H; [destruct H|]. cbn [pos_last List.length].
+  destruct (in_dec string_dec x cs) as [Hi|Hn].
+  - destruct (IH Hi) as (i & Hi1 & Hi2). rewrite Hi1. exists (S i). split; [reflexivity|lia].
+  - rewrite (pos_last_none x cs Hn). destruct H as [->|H]; [|contradiction].
+    rewrite String.eqb_refl. exists 0%nat. split; [reflexivity|lia].
+Qed.
+Lemma nth_error_lt {A} (l : list A) i : (i < List.length l)%nat -> exists a, nth_error l i = Some a.
+Proof. intros H. destruct (nth_error l i) eqn:E; [eauto|]. apply nth_error_None in E. lia. Qed.
+
+(** the cell of a column, total *)
+Definition col_cell (cs : list string) (r : row) (x : string) : cell :=
+  match row_look cs r x with Some c => c | None => CVal VNull end.
+Definition ival (st : store) (cs : list string) (r : row) (e : lexpr) : val :=
+  match e with
+  | EVar x => cell_val (col_cell cs r x)
+  | EProp x k => pprop st (col_cell cs r x) k
+  | ELit v => v
+  | _ => VNull
+  end.
+Lemma row_look_in cs r x : List.In x cs -> List.length cs = List.length r -> exists c, row_look cs r x = Some c.
+Proof.
+  intros Hi Hl. destruct (pos_last_some x cs Hi) as (i & Hp & Hlt). unfold row_look. rewrite Hp. cbn [obind].
+  apply nth_error_lt. lia.
+Qed.
+Lemma pprop_ent st c k : is_ent c ->
+  pprop st c k = match ent_prop st (ent_of c) k with Some v => v | None => VNull end.
+Proof.
+  destruct c as [i|i|v]; intros H; [| |destruct H]; unfold pprop; cbn [cell_node_id cell_edge_id ent_of ent_prop obind].
+  - destruct (get_node st i); reflexivity.
+  - destruct (get_edge st i); reflexivity.
+Qed.
+Lemma ival_item_val st cs r e :
+  List.length cs = List.length r -> Forall is_ent r -> NoDup (filter nonanon cs) ->
+  core_item (filter nonanon cs) e = true ->
+  ival st cs r e = item_val st (row_env cs r) e.
+Proof.
+  intros Hl He Hn Hc. unfold item_val, eval_env.
+  destruct e as [v|x|x k| | | | | | | |]; cbn [core_item] in Hc; try discriminate Hc; cbn [ival eval]; [reflexivity| |].
+  all: apply existsb_exists in Hc; destruct Hc as (y & Hy & Hxy); apply String.eqb_eq in Hxy; subst y;
+       apply filter_In in Hy; destruct Hy as [Hin Hna]; unfold nonanon in Hna; apply negb_true_iff in Hna;
+       destruct (row_look_in cs r x Hin Hl) as (c & Hc);
+       pose proof (look_agree x Hna cs r Hl He Hn) as Hla; rewrite Hc in Hla; cbn [option_map] in Hla; rewrite <- Hla; cbn [obind];
+       unfold col_cell; rewrite Hc; pose proof (row_look_ent cs r x c He Hc) as Hce.
+  - apply cell_val_ent. exact Hce.
+  - apply pprop_ent. exact Hce.
+Qed.
+
+Definition stable (ty : coltype) (c : cell) : Prop :=
+  match ty with
+  | TGen => True
+  | TNode => match c with CVal VNull => False | _ => True end
+  | _ => False
+  end.
+Lemma push_row_stable tys : forall seen r, Forall2 stable tys r -> push_row tys seen r = (r, seen).
+Proof.
+  induction tys as [|ty tys IH]; intros seen r H; inversion H as [|? c ? r' Hs Hr]; subst; [destruct seen; reflexivity|].
+  destruct seen as [|sn seen]; [reflexivity|]. cbn [push_row].
+  assert (Hp : push_typed ty sn c = (c, sn)).
+  { destruct ty; cbn in Hs; try contradiction; [reflexivity|]. destruct c as [i|i|v]; try reflexivity. destruct v; try reflexivity. contradiction. }
+  rewrite Hp, (IH seen r' Hr). reflexivity.
+Qed.
+Lemma push_rows_stable tys rs : forall seen, Forall (Forall2 stable tys) rs -> push_rows tys seen rs = rs.
+Proof.
+  induction rs as [|r rs IH]; intros seen H; [reflexivity|]. inversion H as [|? ? H1 H2]; subst.
+  cbn [push_rows]. rewrite (push_row_stable tys seen r H1), (IH seen H2). reflexivity.
+Qed.
+Lemma typed_rows_stable tys rs : Forall (Forall2 stable tys) rs -> typed_rows tys rs = rs.
+Proof. apply push_rows_stable. Qed.
+
+Lemma to_nodecol_ent c : is_ent c -> to_nodecol c = CNode (match c with CNode i | CEdge i => i | _ => 0 end) /\ cell_val (to_nodecol c) = cell_val c.
+Proof. destruct c as [i|i|v]; intros H; [| |destruct H]; split; reflexivity. Qed.
+
+Lemma is_identity_seq ps : forall k, is_identity k ps = true -> ps = seq k (List.length ps).
+Proof.
+  induction ps as [|p ps IH]; intros k H; [reflexivity|]. cbn [is_identity] in H. apply andb_true_iff in H. destruct H as [H1 H2].
+  apply Nat.eqb_eq in H1. subst p. cbn [List.length seq]. f_equal. apply IH. exact H2.
+Qed.
+Lemma map_nth_seq {A} (r : list A) (d : A) : map (fun p => nth p r d) (seq 0 (List.length r)) = r.
+Proof.
+  induction r as [|a r IH]; [reflexivity|]. cbn [List.length seq map nth]. f_equal.
+  rewrite <- seq_shift, map_map. exact IH.
+Qed.
+
+Lemma forallb_map' {A B} (f : B -> bool) (g : A -> B) (l : list A) : forallb f (map g l) = forallb (fun a => f (g a)) l.
+Proof. induction l as [|a l IH]; cbn; [reflexivity|rewrite IH; reflexivity]. Qed.
+
+Lemma Forall2_same {A} (R : A -> A -> Prop) (l : list A) : (forall a, List.In a l -> R a a) -> Forall2 R l l.
+Proof. induction l as [|a l IH]; intros H; constructor; [apply H; left; reflexivity|apply IH; intros b Hb; apply H; right; exact Hb]. Qed.
+Lemma Forall2_map_r {A B} (R : A -> B -> Prop) (f : A -> B) (l : list A) : (forall a, List.In a l -> R a (f a)) -> Forall2 R l (map f l).
+Proof. induction l as [|a l IH]; intros H; cbn [map]; constructor; [apply H; left; reflexivity|apply IH; intros b Hb; apply H; right; exact Hb]. Qed.
+Lemma Forall2_map_both {A B C} (R : B -> C -> Prop) (f : A -> B) (g : A -> C) (l : list A) :
+  (forall a, List.In a l -> R (f a) (g a)) -> Forall2 R (map f l) (map g l).
+Proof. induction l as [|a l IH]; intros H; cbn [map]; constructor; [apply H; left; reflexivity|apply IH; intros b Hb; apply H; right; exact Hb]. Qed.
+
+Lemma return_sem st items t :
+  wfc t -> forallb (core_item (filter nonanon (cols t))) items = true ->
+  exists t', return_tbl st (ret_items items) t = Ok t' /\ out_rows t' = project_envs st items (tbl_envs t).
+Proof.
+  intros [Hn Hrows] Hc. rewrite forallb_forall in Hc.
+  assert (Hval : forall r, List.In r (rows t) -> map (ival st (cols t) r) items = map (item_val st (row_env (cols t) r)) items).
+  { intros r Hr. destruct (Hrows r Hr) as [Hl He]. apply map_ext_in. intros e Hein. apply ival_item_val; auto. }
+  assert (Hgoal : forall rs', Forall2 (fun r r' => map cell_val r' = map (ival st (cols t) r) items) (rows t) rs' ->
+                  map (map cell_val) rs' = project_envs st items (tbl_envs t)).
+  { intros rs' HF. unfold project_envs, tbl_envs. rewrite map_map.
+    induction HF as [|r r' rs rs' H1 _ IH]; [reflexivity|]. cbn [map]. f_equal.
+    - rewrite H1. apply Hval. left. reflexivity.
+    - apply IH; intros; [apply Hrows|apply Hval]; right; assumption. }
+  (* cells of variables *)
+  assert (Hvar : forall x r, List.In (EVar x) items \/ (exists k, List.In (EProp x k) items) -> List.In r (rows t) ->
+                 exists i c, pos_last x (cols t) = Some i /\ nth_error r i = Some c /\ col_cell (cols t) r x = c /\ is_ent c).
+  { intros x r Hx Hr. destruct (Hrows r Hr) as [Hl He].
+    assert (Hin : List.In x (cols t)).
+    { destruct Hx as [Hx|[k Hx]]; specialize (Hc _ Hx); cbn [core_item] in Hc; apply existsb_exists in Hc;
+      destruct Hc as (y & Hy & Hxy); apply String.eqb_eq in Hxy; subst y; apply filter_In in Hy; apply Hy. }
+    destruct (pos_last_some x (cols t) Hin) as (i & Hp & Hlt).
+    destruct (nth_error_lt r i ltac:(lia)) as (c & Hnth). exists i, c. split; [exact Hp|]. split; [exact Hnth|].
+    unfold col_cell, row_look. rewrite Hp. cbn [obind]. rewrite Hnth. split; [reflexivity|].
+    rewrite Forall_forall in He. apply He. eapply nth_error_In. exact Hnth. }
+  unfold return_tbl.
+  replace (forallb (fun it => is_var (fst it)) (ret_items items)) with (forallb is_var items)
+    by (unfold ret_items; rewrite forallb_map'; reflexivity).
+  destruct (forallb is_var items) eqn:Eall.
+  - (* variables only *)
+    rewrite forallb_forall in Eall.
+    set (posf := fun e => match e with EVar x => match pos_last x (cols t) with Some i => i | None => 0%nat end | _ => 0%nat end).
+    assert (Hps : mapM (fun it : lexpr * option string => match fst it with EVar x => of_opt (pos_last x (cols t)) | _ => Err end) (ret_items items)
+                  = Ok (map posf items)).
+    { unfold ret_items. rewrite <- (map_map (fun e => (e, @None string)) (fun it => posf (fst it))).
+      apply mapM_map. intros it Hit. apply in_map_iff in Hit. destruct Hit as (e & <- & He). cbn [fst].
+      specialize (Eall e He). destruct e; try discriminate Eall. specialize (Hc _ He). cbn [core_item] in Hc.
+      apply existsb_exists in Hc. destruct Hc as (y & Hy & Hxy). apply String.eqb_eq in Hxy. subst y.
+      apply filter_In in Hy. destruct (pos_last_some x (cols t) (proj1 Hy)) as (i & Hp & _). cbn [posf]. rewrite Hp. reflexivity. }
+    rewrite Hps. cbn [rbind].
+    assert (Hcell : forall r e, List.In r (rows t) -> List.In e items ->
+                    exists c, nth_error r (posf e) = Some c /\ is_ent c /\ cell_val c = ival st (cols t) r e).
+    { intros r e Hr He. specialize (Eall e He). destruct e; try discriminate Eall.
+      destruct (Hvar x r (or_introl He) Hr) as (i & c & Hp & Hnth & Hcc & Hce). exists c. cbn [posf ival]. rewrite Hp, Hcc. auto. }
+    destruct (Nat.eqb (List.length (map posf items)) (List.length (cols t)) && is_identity 0 (map posf items)) eqn:Eid.
+    + apply andb_true_iff in Eid. destruct Eid as [El Ei]. apply Nat.eqb_eq in El. apply is_identity_seq in Ei.
+      eexists. split; [reflexivity|]. cbn [out_rows rows]. apply Hgoal.
+      clear Hgoal. assert (Hall : forall r, List.In r (rows t) -> map cell_val r = map (ival st (cols t) r) items).
+      { intros r Hr. destruct (Hrows r Hr) as [Hl _].
+        rewrite <- (map_nth_seq r (CVal VNull)) at 1. rewrite map_map. rewrite <- Hl, <- El, <- Ei, map_map.
+        apply map_ext_in. intros e He. destruct (Hcell r e Hr He) as (c & Hnth & _ & Hv).
+        rewrite (nth_error_nth r (posf e) (CVal VNull) Hnth). exact Hv. }
+      apply Forall2_same. exact Hall.
+    + set (g := fun r : row => map (fun p => to_nodecol (nth p r (CVal VNull))) (map posf items)).
+      match goal with |- context [mapM ?f (rows t)] => assert (Hrs : mapM f (rows t) = Ok (map g (rows t))) end.
+      { apply mapM_map. intros r Hr. apply mapM_map. intros p Hp. apply in_map_iff in Hp. destruct Hp as (e & <- & He).
+        destruct (Hcell r e Hr He) as (c & Hnth & _ & _). rewrite Hnth. cbn [of_opt rbind]. rewrite (nth_error_nth r (posf e) (CVal VNull) Hnth). reflexivity. }
+      rewrite Hrs. cbn [rbind]. eexists. split; [reflexivity|]. cbn [out_rows rows mkT].
+      rewrite typed_rows_stable.
+      * apply Hgoal. clear Hgoal Hrs.
+        assert (Hall : forall r, List.In r (rows t) -> map cell_val (g r) = map (ival st (cols t) r) items).
+        { intros r Hr. unfold g. rewrite !map_map. apply map_ext_in. intros e He.
+          destruct (Hcell r e Hr He) as (c & Hnth & Hce & Hv). rewrite (nth_error_nth r (posf e) (CVal VNull) Hnth).
+          rewrite (proj2 (to_nodecol_ent c Hce)). exact Hv. }
+        apply Forall2_map_r. exact Hall.
+      * apply Forall_forall. intros r' Hr'. apply in_map_iff in Hr'. destruct Hr' as (r & <- & Hr). unfold g.
+        rewrite !map_map. apply Forall2_map_both.
+        intros e He. destruct (Hcell r e Hr He) as (c & Hnth & Hce & _). rewrite (nth_error_nth r (posf e) (CVal VNull) Hnth).
+        rewrite (proj1 (to_nodecol_ent c Hce)). exact I.
+  - (* mixed items *)
+    set (chk := fun it : lexpr * option string => match fst it with
+                            | EVar x | EProp x _ => of_opt (pos_last x (cols t))
+                            | ELit _ => Ok O
+                            | _ => Err end).
+    assert (Hchk : exists l, mapM chk (ret_items items) = Ok l).
+    { clear -Hc. induction items as [|e items IH]; [exists []; reflexivity|].
+      destruct IH as (l & Hl); [intros x Hx; apply Hc; right; exact Hx|].
+      pose proof (Hc e (or_introl eq_refl)) as He. cbn [ret_items map mapM]. fold (ret_items items). rewrite Hl.
+      unfold chk at 1. cbn [fst].
+      destruct e; cbn [core_item] in He; try discriminate He; cbn [rbind]; try (eexists; reflexivity).
+      all: apply existsb_exists in He; destruct He as (y & Hy & Hxy); apply String.eqb_eq in Hxy; subst y;
+           apply filter_In in Hy; destruct (pos_last_some x (cols t) (proj1 Hy)) as (i & Hp & _); rewrite Hp; cbn [of_opt rbind]; eexists; reflexivity. }
+    destruct Hchk as (l & Hl). fold chk. rewrite Hl. cbn [rbind].
+    set (cellf := fun (r : row) (e : lexpr) => match e with
+                     | EVar x => to_nodecol (col_cell (cols t) r x)
+                     | EProp x k => CVal (pprop st (col_cell (cols t) r x) k)
+                     | ELit v => CVal v
+                     | _ => CVal VNull end).
+    match goal with |- context [mapM ?f (rows t)] => assert (Hrs : mapM f (rows t) = Ok (map (fun r => map (cellf r) items) (rows t))) end.
+    { apply mapM_map. intros r Hr. unfold ret_items. rewrite <- (map_map (fun e => (e, @None string)) (fun it => cellf r (fst it))).
+      apply mapM_map. intros it Hit. apply in_map_iff in Hit. destruct Hit as (e & <- & He). cbn [fst].
+      pose proof (Hc e He) as Hce. destruct e; cbn [core_item] in Hce; try discriminate Hce; cbn [proj_cell cellf]; [reflexivity| |].
+      - destruct (Hvar x r (or_introl He) Hr) as (i & c & Hp & Hnth & Hcc & _). rewrite Hp. cbn [of_opt rbind]. rewrite Hnth. cbn [rbind]. rewrite Hcc. reflexivity.
+      - destruct (Hvar x r (or_intror (ex_intro _ k He)) Hr) as (i & c & Hp & Hnth & Hcc & _). rewrite Hp. cbn [of_opt rbind]. rewrite Hnth. cbn [rbind]. rewrite Hcc. reflexivity. }
+    rewrite Hrs. cbn [rbind]. eexists. split; [reflexivity|]. cbn [out_rows rows mkT].
+    rewrite typed_rows_stable.
+    + apply Hgoal. clear Hgoal Hrs.
+      assert (Hall : forall r, List.In r (rows t) -> map cell_val (map (cellf r) items) = map (ival st (cols t) r) items).
+      { intros r Hr. rewrite map_map. apply map_ext_in. intros e He. pose proof (Hc e He) as Hce.
+        destruct e; cbn [core_item] in Hce; try discriminate Hce; cbn [cellf ival cell_val]; try reflexivity.
+        destruct (Hvar x r (or_introl He) Hr) as (i & c & _ & _ & Hcc & Hent). rewrite Hcc. apply (proj2 (to_nodecol_ent c Hent)). }
+      apply Forall2_map_r. exact Hall.
+    + apply Forall_forall. intros r' Hr'. apply in_map_iff in Hr'. destruct Hr' as (r & <- & Hr).
+      unfold ret_items. rewrite map_map. cbn [fst]. apply Forall2_map_both.
+      intros e He. pose proof (Hc e He) as Hce. destruct e; cbn [core_item] in Hce; try discriminate Hce; cbn [is_var cellf]; try exact I.
+      destruct (Hvar x r (or_introl He) Hr) as (i & c & _ & _ & Hcc & Hent). rewrite Hcc, (proj1 (to_nodecol_ent c Hent)). exact I.
+Qed.
+
+(** * SKIP / LIMIT on values *)
+Lemma cell_val_to_gen r : map cell_val (map to_gen r) = map cell_val r.
+Proof. rewrite map_map. apply map_ext. intros c. reflexivity. Qed.
+Lemma skipn_map' {A B} (f : A -> B) n (l : list A) : skipn n (map f l) = map f (skipn n l).
+Proof. revert l. induction n as [|n IH]; intros [|a l]; cbn; auto. Qed.
+Lemma firstn_map' {A B} (f : A -> B) n (l : list A) : firstn n (map f l) = map f (firstn n l).
+Proof. revert l. induction n as [|n IH]; intros [|a l]; cbn; [reflexivity|reflexivity|reflexivity|rewrite IH; reflexivity]. Qed.
+Lemma skip_out n t : out_rows (skip_tbl n t) = skipn n (out_rows t).
+Proof.
+  unfold out_rows, skip_tbl, skip_rows. cbn [rows mkT]. destruct (Nat.eqb n 0) eqn:E.
+  - apply Nat.eqb_eq in E. subst n. reflexivity.
+  - rewrite skipn_map', map_map. apply map_ext. intros r. apply cell_val_to_gen.
+Qed.
+Lemma limit_out n t : out_rows (limit_tbl n t) = firstn n (out_rows t).
+Proof.
+  unfold out_rows, limit_tbl, limit_rows. cbn [rows mkT]. destruct (rows t) as [|r rs] eqn:Er; [destruct n; reflexivity|].
+  rewrite <- Er. destruct (Nat.leb n 0) eqn:E0.
+  - apply Nat.leb_le in E0. assert (n = 0%nat) by lia. subst n. reflexivity.
+  - destruct (Nat.leb (List.length (rows t)) n) eqn:E1.
+    + apply Nat.leb_le in E1. rewrite firstn_all2; [reflexivity|rewrite map_length; exact E1].
+    + rewrite firstn_map', map_map. apply map_ext. intros r'. apply cell_val_to_gen.
+Qed.
+
+(** * The plain core query: MATCH chain [WHERE w] RETURN items [SKIP s] [LIMIT n] *)
+Definition hop_cols (h : hop) : list string := [edge_col (h_evar h); np_var (h_to h)].
+Lemma hops_fresh_vars hs : forall cs, hops_fresh cs hs = true ->
+  forall x, List.In x (map (fun h => np_var (h_to h)) hs ++ flat_map (fun h => match h_evar h with Some r => [r] | None => [] end) hs) ->
+  List.In x (flat_map hop_cols hs) /\ String.eqb x anon = false.
+Proof.
+  induction hs as [|h hs IH]; intros cs Hf x Hx; [destruct Hx|].
+  destruct (hops_fresh_cons _ _ _ Hf) as [(Hf1 & Hf2 & Hf3 & Hf4) Hf'].
+  cbn [map flat_map app] in Hx. cbn [flat_map]. unfold hop_cols at 1.
+  destruct Hx as [<-|Hx].
+  - split; [right; left; reflexivity|exact Hf3].
+  - apply in_app_or in Hx. destruct Hx as [Hx|Hx].
+    + destruct (IH _ Hf' x (in_or_app _ _ _ (or_introl Hx))) as [H1 H2]. split; [|exact H2]. right. right. exact H1.
+    + apply in_app_or in Hx. destruct Hx as [Hx|Hx].
+      * destruct (h_evar h) as [e|]; [|destruct Hx]. destruct Hx as [<-|[]]. split; [left; reflexivity|apply Hf4].
+      * destruct (IH _ Hf' x (in_or_app _ _ _ (or_intror Hx))) as [H1 H2]. split; [|exact H2]. right. right. exact H1.
+Qed.
+Lemma pat_vars_cols p x : pat_fresh p = true -> List.In x (pat_vars p) ->
+  List.In x (filter nonanon (np_var (p_start p) :: flat_map hop_cols (p_hops p))).
+Proof.
+  intros Hf Hx. unfold pat_fresh in Hf. apply andb_true_iff in Hf. destruct Hf as [Hs Hf]. apply negb_true_iff in Hs.
+  unfold pat_vars, pat_nvars, pat_evars in Hx. cbn [app] in Hx. apply filter_In.
+  destruct Hx as [<-|Hx]; [split; [left; reflexivity|apply nonanon_true; exact Hs]|].
+  destruct (hops_fresh_vars _ _ Hf x Hx) as [H1 H2]. split; [right; exact H1|apply nonanon_true; exact H2].
+Qed.
+Lemma core_item_mono vs vs' e : (forall x, List.In x vs -> List.In x vs') -> core_item vs e = true -> core_item vs' e = true.
+Proof.
+  intros H Hc. destruct e; cbn [core_item] in *; try exact Hc.
+  all: apply existsb_exists in Hc; destruct Hc as (y & Hy & Hxy); apply existsb_exists; exists y; split; [apply H; exact Hy|exact Hxy].
+Qed.
+Lemma expr_vars_in_spec vs e : expr_vars_in vs e = true -> forall x, List.In x (expr_vars e) -> List.In x vs.
+Proof.
+  induction e; cbn [expr_vars_in expr_vars]; intros H y Hy; try (destruct Hy; fail).
+  all: try (destruct Hy as [<-|[]]; apply existsb_exists in H; destruct H as (z & Hz & Hxz); apply String.eqb_eq in Hxz; subst z; exact Hz).
+  all: try (apply andb_true_iff in H; destruct H as [H1 H2]; apply in_app_or in Hy; destruct Hy; auto).
+  all: auto.
+Qed.
+
+Definition body_envs (st : store) (q : query) : list env := spec_where st (q_where q) (bindings st (q_pat q)).
+
+Lemma body_sem st q :
+  single_hops (q_pat q) = true -> pat_fresh (q_pat q) = true ->
+  match q_where q with Some w => expr_vars_in (pat_vars (q_pat q)) w | None => true end = true ->
+  exists t, sem_ops st (where_plan (q_where q) (chain_plan (q_pat q))) = Ok t /\ wfc t /\
+            (forall x, List.In x (pat_vars (q_pat q)) -> List.In x (filter nonanon (cols t))) /\
+            tbl_envs t = spec_where st (q_where q) (obindings st (q_pat q)).
+Proof.
+  intros H1 Hf Hw. destruct (chain_obindings_wfc st (q_pat q) H1 Hf) as (t & Hs & Hwf & Hc & He).
+  assert (Hv : forall x, List.In x (pat_vars (q_pat q)) -> List.In x (filter nonanon (cols t))).
+  { intros x Hx. rewrite Hc. apply pat_vars_cols; assumption. }
+  unfold where_plan. destruct (q_where q) as [w|].
+  - assert (Hna : forall x, List.In x (expr_vars w) -> String.eqb x anon = false).
+    { intros x Hx. pose proof (Hv x (expr_vars_in_spec _ _ Hw x Hx)) as Hi. apply filter_In in Hi. destruct Hi as [_ Hi].
+      unfold nonanon in Hi. apply negb_true_iff in Hi. exact Hi. }
+    destruct (where_sem st w t Hwf Hna) as [Hwf' He'].
+    eexists. split; [rewrite sem_ops_filter, Hs; reflexivity|]. split; [exact Hwf'|]. split; [exact Hv|]. rewrite He', He. reflexivity.
+  - exists t. split; [exact Hs|]. split; [exact Hwf|]. split; [exact Hv|]. rewrite He. reflexivity.
+Qed.
+
+Lemma answer_plain st q items :
+  q_ret q = RPlain items false -> q_order q = [] ->
+  answer st q = Ok (spec_limit (q_limit q) (spec_skip (q_skip q) (project_envs st items (body_envs st q)))).
+Proof.
+  intros Hr Ho. unfold answer. rewrite Hr, Ho. cbn [rbind spec_order]. f_equal.
+  unfold spec_project, project_envs, body_envs.
+  destruct (q_limit q), (q_skip q); cbn [spec_limit spec_skip];
+    rewrite <- ?firstn_map', <- ?skipn_map', map_map; reflexivity.
+Qed.
+
+Lemma sem_ops_skip st n i : sem_ops st (LSkip n i) = (do t <- sem_ops st i; Ok (skip_tbl n t)).
+Proof. reflexivity. Qed.
+Lemma sem_ops_limit st n i : sem_ops st (LLimit n i) = (do t <- sem_ops st i; Ok (limit_tbl n t)).
+Proof. reflexivity. Qed.
+
+Lemma cypher_plan_sem st q items t :
+  q_ret q = RPlain items false -> q_order q = [] ->
+  sem_ops st (where_plan (q_where q) (chain_plan (q_pat q))) = Ok t -> wfc t ->
+  forallb (core_item (filter nonanon (cols t))) items = true ->
+  plan_rows st (cypher_plan_of q) = Ok (spec_limit (q_limit q) (spec_skip (q_skip q) (project_envs st items (tbl_envs t)))).
+Proof.
+  intros Hr Ho Hs Hw Hc. destruct (return_sem st items t Hw Hc) as (t2 & Hret & Hout).
+  unfold plan_rows, cypher_plan_of. rewrite Hr, Ho. cbn [opt_sort].
+  assert (H2 : sem_ops st (LReturn (ret_items items) false (where_plan (q_where q) (chain_plan (q_pat q)))) = Ok t2)
+    by (cbn [sem_ops]; rewrite Hs; exact Hret).
+  destruct (q_skip q) as [s|], (q_limit q) as [n|]; cbn [opt_skip opt_limit spec_skip spec_limit];
+    rewrite ?sem_ops_limit, ?sem_ops_skip, H2; cbn [rbind]; rewrite ?limit_out, ?skip_out, Hout; reflexivity.
+Qed.
+
+Theorem plain_answer_directed_l st q :
+  store_ok st -> single_hops (q_pat q) = true -> single_labels (q_pat q) = true -> pat_fresh (q_pat q) = true ->
+  no_type_case st (q_pat q) = true -> directed (q_pat q) = true ->
+  plain_core q = true -> q_order q = [] ->
+  plan_rows st (cypher_plan_of q) = answer st q.
+Proof.
+  intros Hok H1 H2 Hf H3 H4 Hp Ho. unfold plain_core in Hp. apply andb_true_iff in Hp. destruct Hp as [Hp Hw].
+  destruct (q_ret q) as [items d|] eqn:Hr; [|discriminate Hp]. destruct d; [discriminate Hp|].
+  destruct (body_sem st q H1 Hf Hw) as (t & Hs & Hwf & Hv & He).
+  rewrite (answer_plain st q items Hr Ho).
+  rewrite (cypher_plan_sem st q items t Hr Ho Hs Hwf).
+  - rewrite He, (obindings_directed st (q_pat q) Hok H1 H2 H3 H4). reflexivity.
+  - rewrite forallb_forall in Hp |- *. intros e He'. eapply core_item_mono; [exact Hv|apply Hp; exact He'].
+Qed.
+
+(** undirected patterns: the same rows as a multiset (no SKIP/LIMIT, whose result depends on the order) *)
+Theorem plain_answer_bag_l st q :
+  store_ok st -> single_hops (q_pat q) = true -> single_labels (q_pat q) = true -> pat_fresh (q_pat q) = true ->
+  no_type_case st (q_pat q) = true -> no_both_selfloop st (q_pat q) = true ->
+  plain_core q = true -> q_order q = [] -> q_skip q = None -> q_limit q = None ->
+  exists rs rs', plan_rows st (cypher_plan_of q) = Ok rs /\ answer st q = Ok rs' /\ Permutation rs rs'.
+Proof.
+  intros Hok H1 H2 Hf H3 H4 Hp Ho Hsk Hli. unfold plain_core in Hp. apply andb_true_iff in Hp. destruct Hp as [Hp Hw].
+  destruct (q_ret q) as [items d|] eqn:Hr; [|discriminate Hp]. destruct d; [discriminate Hp|].
+  destruct (body_sem st q H1 Hf Hw) as (t & Hs & Hwf & Hv & He).
+  eexists. eexists. split; [|split; [apply (answer_plain st q items Hr Ho)|]].
+  - apply (cypher_plan_sem st q items t Hr Ho Hs Hwf).
+    rewrite forallb_forall in Hp |- *. intros e He'. eapply core_item_mono; [exact Hv|apply Hp; exact He'].
+  - rewrite Hsk, Hli. cbn [spec_skip spec_limit]. unfold project_envs, body_envs. apply Permutation_map. rewrite He.
+    pose proof (obindings_perm st (q_pat q) Hok H1 H2 H3 H4) as Hperm.
+    unfold spec_where. destruct (q_where q); [apply Permutation_filter'; exact Hperm|exact Hperm].
+Qed.
+
+(** GQL builds the same plan when there is nothing to misplace *)
+Lemma gql_plan_plain q : q_order q = [] -> q_skip q = None -> q_limit q = None -> gql_plan_of q = cypher_plan_of q.
+Proof. intros Ho Hs Hl. unfold gql_plan_of, cypher_plan_of. rewrite Ho, Hs, Hl. reflexivity. Qed.
